@@ -474,6 +474,32 @@ Section Histories.
   (* files under ingest/ at this instant *)
   Definition ingest_files (st : cstate) : list str :=
     flat_map (fun t => match t_pc t with PIngest w _ _ => [w] | _ => [] end) (c_thr st).
+
+  (* all terminal states reachable from [st] when every Write step takes the whole
+     remainder (n = big): the Writes only touch the thread's own ingest file, so the
+     order of the Stat and Rename/Remove steps is what matters *)
+  Fixpoint explore (fuel : nat) (big : nat) (st : cstate) : list cstate :=
+    match fuel with
+    | O => []
+    | S f =>
+        let nexts := flat_map (fun i => match cstep st i big with Some st' => [st'] | None => [] end)
+                              (seq 0 (length (c_thr st))) in
+        match nexts with
+        | [] => [st]
+        | _ => flat_map (explore f big) nexts
+        end
+    end.
+
+  (* what an observer sees of a state: each thread's result and the blobs by digest *)
+  Fixpoint visible_blobs (seen : list str) (s : oci) : oci :=
+    match s with
+    | [] => []
+    | (k, v) :: r => if existsb (str_eqb k) seen then visible_blobs seen r
+                     else (k, v) :: visible_blobs (k :: seen) r
+    end.
+
+  Definition thread_results (st : cstate) : list (option (option rerr)) :=
+    map (fun t => match t_pc t with PDone r => Some r | _ => None end) (c_thr st).
 End Histories.
 
 (* ------------------------------------------------------------------ cas.Proxy *)
